@@ -266,6 +266,14 @@ protected:
 	const _Xml* _() const { return (_Xml*)_p; }
 
 	ASL_EXPLICIT operator int() const;
+
+	// the i-th child is about to leave this element: it must not keep pointing at it
+	void orphan(int i)
+	{
+		Xml& c = _()->children[i];
+		if (c._p && c._()->parent == _())
+			c._()->parent = NULL;
+	}
 public:
 	typedef _Xml NType;
 
@@ -445,7 +453,10 @@ public:
 	void remove(int i)
 	{
 		if (i>=0 && i<_()->children.length())
+		{
+			orphan(i);
 			_()->children.remove(i);
+		}
 	}
 
 	/**
@@ -526,7 +537,12 @@ public:
 	/**
 	Removes all children
 	*/
-	void clear() { _()->children.clear(); }
+	void clear()
+	{
+		for (int i = 0; i < _()->children.length(); i++)
+			orphan(i);
+		_()->children.clear();
+	}
 
 	/**
 	Appends an element as a child.
